@@ -138,7 +138,10 @@ def run(ctx):
         panic_regions.append(g)
         ops = atomic_ops(g)
         if not (len(ops) == 1 and ops[0][1] in ("fetch_update", "try_update", "update")):
-            chk.ob("C04.b", g.path, False, f"expected a single fetch_update RMW, found {[o[1] for o in ops]}", g.loc())
+            from props.common import cas_loop
+
+            okl, whyl = cas_loop(g, binop) if any(o[1].startswith("compare_exchange") for o in ops) else (False, "")
+            chk.ob("C04.b", g.path, okl, whyl if okl else f"expected a single fetch_update RMW or a compare-exchange retry loop that recomputes from the observed value, found {[o[1] for o in ops]}" + (f": {whyl}" if whyl else ""), g.loc())
             continue
         c, _, recv, args = ops[0]
         # the closure passed last
@@ -295,6 +298,7 @@ def _imports(ctx):
     from props.common import import_rules
 
     import_rules(ctx, "C05", {"C05.a", "C05.b", "C05.c", "C05.d"}, "C04.g", "imported from C05 (AtomicBucket<f64> is the standard histogram storage behind Histogram::record): slot claim/publish protocol, wait-before-read, link-before-publish, claims fenced before a detached block is read — otherwise a recorded value is delivered zero times", floor=10)
+    import_rules(ctx, "C10", {"C10.a"}, "C04.h", "imported from C10 (the DogStatsD recorder's CounterFn/GaugeFn storage, a sibling implementation behind the same handles): updates are single atomic read-modify-write operations whose retry closure always yields a value — otherwise an update through a handle is lost or panics", floor=3)
 
 
 def run_config(ctx):
